@@ -122,8 +122,10 @@ func (m *ctxModel) write(loc string, v int) {
 		}
 	case "func.default":
 		m.defaults = append(m.defaults, val)
-	case "print.capture":
-		m.vals[loc] = val + "\n" // a fresh capture object holding exactly this print
+	case "print.capture", "print.fault":
+		m.vals["print.capture"] = val + "\n" // a fresh capture object holding exactly this print
+	case "type.subclasses":
+		// no effect on what is visible from other contexts' classes
 	case "type.int", "type.list", "type.exc":
 		// attributes of built-in types cannot be set: no effect
 	default:
@@ -194,11 +196,13 @@ func (m *ctxModel) read(loc string) string {
 			return q(v)
 		}
 		return q("unset")
-	case "print.capture":
-		if v, ok := m.vals[loc]; ok {
+	case "print.capture", "print.fault":
+		if v, ok := m.vals["print.capture"]; ok {
 			return q(v)
 		}
 		return q("not-captured")
+	case "type.subclasses":
+		return "[]"
 	case "nested.cfg":
 		if !m.importHlp() {
 			return "\"exc\" \"ImportError\""
